@@ -314,10 +314,13 @@ class Compiler:
             "set_where": None
         }
 
-        code = self.compile_file(file, link_base["promise"], link_base, include_depth)
-
-        if not link_base["promise"].settled:
-            link_base["promise"].settle(addr)
+        try:
+            code = self.compile_file(file, link_base["promise"], link_base, include_depth)
+        finally:
+            # Also when a statement of the included file failed: its labels are
+            # already defined in terms of this promise
+            if not link_base["promise"].settled:
+                link_base["promise"].settle(addr)
 
         return code
 
